@@ -100,17 +100,23 @@ def main():
     for c in stats.caps:
         print('  cap hit:', c)
 
-    if stats.selfcheck_errors:
-        for e in stats.selfcheck_errors[:5]:
-            print('SELF-CHECK:', e)
-        return 2
+    for e in stats.selfcheck_errors[:5]:
+        print('SELF-CHECK:', e)
 
     if violations:
         for n, f in enumerate(violations[:10]):
-            path = core.write_replay(prop, n, f)
-            print('  ', f.message)
+            # every violation is re-executed once, without the explorer, before it is reported
+            try:
+                ok, _text = mod.replay(f.witness)
+                reproduced = not ok
+            except Exception as exc:  # noqa: BLE001
+                reproduced = 'replay raised %r' % (exc,)
+            path = core.write_replay(prop, n, f, {'reproduced_on_replay': reproduced})
+            print('  ', f.message[:600])
             print('VIOLATION property=%s replay=%s' % (prop, path))
         return 1
+    if stats.selfcheck_errors:
+        return 2
     return 0
 
 
